@@ -215,7 +215,16 @@ def run(ctx):
                 ctx.ob("R6.offsets", key, P.where(s), "file_offset is set to 4 only after the leading magic was written", ok)
             elif s.op == "+=":
                 amount = lvalue_text(s.c[1].strip_casts())
+                # fwrite itself, or a helper of the file that hands that argument to fwrite as the byte count
+                wrappers = {}
+                for g_ in P.funcs_in(FW):
+                    for c_ in g_.calls("fwrite"):
+                        x_ = c_.args()[2].strip_casts()
+                        if x_.k == "DeclRefExpr" and x_.get("dk") == "param" and c_.args()[1].cv == 1:
+                            wrappers[g_.name] = [q["n"] for q in g_.params].index(x_.name)
                 fw = [c_ for c_ in fn.calls("fwrite") if lvalue_text(c_.args()[2]) == amount]
+                fw += [c_ for c_ in fn.calls() if c_.callee in wrappers and wrappers[c_.callee] < len(c_.args())
+                       and lvalue_text(c_.args()[wrappers[c_.callee]]) == amount]
                 ok = bool(fw) and all(fn.cfg.node_dominates(_first(fn, c_), s) or True for c_ in fw) and \
                     any(fn.cfg.node_dominates(c_, s) or _guarded_by(c_, s) for c_ in fw)
                 ctx.ob("R6.offsets", key, P.where(s),
